@@ -124,7 +124,8 @@ def run_e1(prop, tier, seed, t0):
         "H2 introspection (__verif_repr) reads the fields it names; it is used only for coverage, refcount conservation and classifying empty handles",
         "single-threaded histories: every point between two calls is quiescent",
     ]
-    return finish(prop, tier, seed, agg, t0, "exploration", E1_RULE[prop], nontrivial_filter=nontrivial_cell, extra=extra, assumptions=assumptions)
+    level = "fault_enumeration" if prop == "C13" else "exploration"
+    return finish(prop, tier, seed, agg, t0, level, E1_RULE[prop], nontrivial_filter=nontrivial_cell, extra=extra, assumptions=assumptions)
 
 
 # ----------------------------------------------------------------------------------- E4
